@@ -283,4 +283,56 @@ theorem resampled_nested {ω} (w w1 w2 : LLWcs ω) (f1 o1 f2 o2 : List Rat)
   simp only [PerAxis.expand]
   rw [mulAdd_mulAdd]
 
+theorem selectIdx_selectIdx {α} (a b : List Nat) (l : List α) (hb : ∀ i ∈ b, i < l.length) :
+    selectIdx a (selectIdx b l) = selectIdx (selectIdx a b) l := by
+  have h1 : selectIdx a (selectIdx b l) = a.filterMap fun i => (b[i]?).bind fun j => l[j]? := by
+    induction a with
+    | nil => rfl
+    | cons x xs ih =>
+      have hx := selectIdx_getElem? b l hb x
+      simp only [selectIdx, List.filterMap_cons] at ih ⊢
+      simp only [selectIdx] at hx
+      rw [hx, ih]
+  rw [h1]
+  simp only [selectIdx, List.filterMap_filterMap]
+
+/-- **Reordering a reordered WCS**: the two wrappers act as one reordering whose order is the
+inner order read through the outer one, `order[i] = inner[outer[i]]` — on the pixel inputs, the
+world outputs and the per-axis attributes alike. -/
+theorem reordered_nested {ω} (w : LLWcs ω) (types : List String) (po1 wo1 po2 wo2 : List Nat)
+    (r1 r2 : Reordered ω) (h1 : reordered w types po1 wo1 = .ok r1)
+    (h2 : reordered r1.wcs r1.worldTypes po2 wo2 = .ok r2) (hwf : WellFormed w)
+    (p : List Rat) (hp : p.length = w.pixDim) :
+    r2.wcs.p2w (selectIdx (selectIdx po2 po1) p) = selectIdx (selectIdx wo2 wo1) (w.p2w p) ∧
+    r2.worldTypes = selectIdx wo2 (selectIdx wo1 types) := by
+  have hdim : r1.wcs.pixDim = w.pixDim ∧ r1.wcs.worldDim = w.worldDim := by
+    simp only [reordered] at h1
+    split at h1
+    · cases h1
+    · split at h1
+      · cases h1
+      · cases h1; exact ⟨rfl, rfl⟩
+  have hpo1 : isPermOfRange po1 w.pixDim = true := by
+    simp only [reordered] at h1
+    split at h1
+    · cases h1
+    · rename_i hh; simpa using hh
+  have hwo1 : isPermOfRange wo1 w.worldDim = true := by
+    simp only [reordered] at h1
+    split at h1
+    · cases h1
+    · split at h1
+      · cases h1
+      · rename_i hh; simpa using hh
+  obtain ⟨hl1, _, _, hlt1⟩ := isPerm_facts po1 w.pixDim hpo1
+  obtain ⟨_, _, _, hltw1⟩ := isPerm_facts wo1 w.worldDim hwo1
+  have a1 := reordered_perm w types po1 wo1 r1 h1 p hp
+  have hlen1 : (selectIdx po1 p).length = r1.wcs.pixDim := by
+    rw [selectIdx_length_of_lt po1 p (fun i hi => by rw [hp]; exact hlt1 i hi), hl1, hdim.1]
+  have a2 := reordered_perm r1.wcs r1.worldTypes po2 wo2 r2 h2 (selectIdx po1 p) hlen1
+  refine ⟨?_, ?_⟩
+  · rw [← selectIdx_selectIdx po2 po1 p (fun i hi => by rw [hp]; exact hlt1 i hi), a2.1, a1.1]
+    exact selectIdx_selectIdx wo2 wo1 (w.p2w p) (fun i hi => by rw [hwf]; exact hltw1 i hi)
+  · rw [a2.2.1, a1.2.1]
+
 end Ndcube.C14
